@@ -516,4 +516,12 @@ non-zero flag is still false. -/
 def regEntries (s : Sys) : List (Nat × Nat × Rat) :=
   (((List.range s.matSize).filter (fun i => s.nz.getD i true = false)).reverse).map (fun i => (i, i, tiny))
 
+/-- `Σ v · x_r²` over a list of (diagonal) triplets. -/
+def diagQ : List (Nat × Nat × Rat) → (Nat → Rat) → Rat
+  | [], _ => 0
+  | e :: es, x => e.2.2 * sq (x e.1) + diagQ es x
+
+/-- The quadratic `finalize` adds: `1e-8 · x_i²` for every unknown no pin has touched. -/
+def regQ (s : Sys) (x : Nat → Rat) : Rat := diagQ (regEntries s) x
+
 end ColoVerif.NetAsm
